@@ -289,7 +289,9 @@ Definition split_dl (prefix : pch) (itemk : kind) (kids3 : list tok) : option (t
   | PcSemi, Tok (KNode b) i0 ks0 :: restk =>
     match find_spcolon ks0 with
     | Some (before, after) =>
-      Some (Tok itemk 0%N (Tok (KNode b) i0 before :: restk), Tok (KStyle CColon) 0%N after)
+      (* `description_data.children.extend(item.children[1:]); del item.children[1:]` (fix 9ee1990): what the item
+         swallowed follows the description text *)
+      Some (Tok itemk 0%N [Tok (KNode b) i0 before], Tok (KStyle CColon) 0%N (after ++ restk))
     | None => None
     end
   | _, _ => None
